@@ -581,6 +581,48 @@ def _distribute(ctx, model):
                "expands to a sum only after mapping), so the test misses it or "
                "admits the wrong class")
     ctx.floor("DistributeMapper handlers", n_handlers, 4)
+    # map_power multiplies a power of a sum out by repeating the base
+    # `exponent` times: for exponent <= 0 the repetition is empty, which is
+    # the constant 1 (wrong for negative exponents) and not a Product at all
+    mp = model.lookup(dm, "map_power")
+    from ..summary import facts_of
+    n_rep = 0
+    ok = True
+    EXPO = ("field", "exponent")
+    for ps in handler_summaries(model, model.nodes.get("Power"), mp.node,
+                                loop_mode="1"):
+        if ps.term != "return" or ps.retval is None:
+            continue
+        if not contains(ps.retval, lambda t: t[0] == "binop" and t[1] == "Mult"
+                        and EXPO in (t[2], t[3])
+                        and any(isinstance(x, tuple) and x[0] == "lit"
+                                and x[1] == "tuple" for x in (t[2], t[3]))):
+            continue
+        n_rep += 1
+        positive = False
+        for _, pol0, c0 in ps.conds:
+            if not isinstance(c0, tuple):
+                continue
+            for v, pol in facts_of(c0, pol0):
+                if isinstance(v, tuple) and v[0] == "compare" and \
+                        len(v[1]) == 1 and v[2] == EXPO and \
+                        v[3][0][0] == "const":
+                    op, k = v[1][0], v[3][0][1]
+                    if (op == "Gt" and k >= 0 and pol) or \
+                            (op == "GtE" and k >= 1 and pol) or \
+                            (op == "LtE" and k >= 0 and not pol) or \
+                            (op == "Lt" and k >= 1 and not pol):
+                        positive = True
+        ok = ok and positive
+    ctx.ob("P/DistributeMapper/map_power/repetition-needs-positive-exponent",
+           ok and n_rep >= 1, where(mp),
+           "the base is repeated exponent times only for a positive exponent"
+           if ok and n_rep else
+           "DistributeMapper.map_power repeats the base 'exponent' times without "
+           "having established exponent > 0: for exponent 0 or a negative "
+           "exponent the repetition is empty, flattened_product gives the "
+           "constant 1 and map_product fails on it (expand((x + 1)**0) raises "
+           "AttributeError)")
 
 
 def _has(v, tag):
